@@ -4,6 +4,7 @@ Property theorems only; all about definitions regenerated from /repo (`Wz.Gen.Me
 model built on them (`Wz.Model.Memory`).
 -/
 import Wz.Model.Memory
+import Wz.Gen.FrontendReload
 
 namespace Wz.C14
 open Wz.Gen.Memory Wz.Model.Memory
@@ -316,5 +317,21 @@ example : Grow 0x80000000#32 false (MemoryPagesToBytesNum 2#32) 65536#32 2#32 fa
   decide
 example : Grow 0xfffffffe#32 false (MemoryPagesToBytesNum 2#32) 65536#32 2#32 false false false = some (0#32, false) := by
   decide
+
+
+/-! ### "both engines always agree on the current size": the compiler's cached length -/
+
+/-- **Regenerated obligation** (frontend/lower.go): compiled code keeps the memory length in an SSA variable;
+the only events that change the length are `memory.grow` (in this function or in a callee) and host calls.
+The front end re-reads the length after every call form and after `memory.grow`, unconditionally for
+non-shared memories, and never answers from the cache for shared ones - so the cached length always equals
+the instance's (a seeded change that skipped the reload for memories pre-allocated up to their maximum broke
+exactly this). -/
+theorem compiler_rereads_length_after_call :
+    Wz.Gen.FrontendReload.reloadGuard = "c.needMemory && !c.memoryShared" ∧
+    Wz.Gen.FrontendReload.reloadStatements.contains "c.getMemoryLenValue(true)" = true ∧
+    Wz.Gen.FrontendReload.lenCacheGuard = "!forceReload && !c.memoryShared" ∧
+    Wz.Gen.FrontendReload.reloadAfterCallCallers =
+      ["lowerCall", "lowerCallIndirect", "lowerTailCallReturnCall", "lowerTailCallReturnCallIndirect"] := by decide
 
 end Wz.C14
